@@ -111,14 +111,14 @@ func init() {
 	})
 	property(&Property{
 		ID:    "C16",
-		Rules: []string{"PANIC-REACH-REG", "COMMAOK-REG", "TOKEN-KINDS", "COW-7", "COW-3", "SLOT-CHECK", "FIELDPATH-SINGULAR", "ADDITIONAL-BINDINGS"},
+		Rules: []string{"PANIC-REACH-REG", "COMMAOK-REG", "TOKEN-KINDS", "COW-7", "COW-3", "COW-5", "SLOT-CHECK", "FIELDPATH-SINGULAR", "ADDITIONAL-BINDINGS"},
 		Decides: "Decides the 'rejects ... with an error (never a panic) and leaves previously registered routes intact' half: no panic or unchecked comma-ok use is reachable from the registration roots, pattern tokens are validated, a failed registration publishes nothing and works on a private clone, a binding slot is written only after the conflict check, body/response_body selectors must name singular message fields, nested additional bindings are rejected before recursion.",
 		NotDecided: "the 'accepts every well-formed template' half (grammar conformance is value-level: e.g. one-letter literals are rejected today).",
 		Assumptions: commonAssumptions,
 	})
 	property(&Property{
 		ID:    "C17",
-		Rules: []string{"LIMIT-IMPL", "LIMIT-STRICT", "SIGNCONV", "COMMAOK-SERVE", "READFULL-EOF"},
+		Rules: []string{"LIMIT-IMPL", "LIMIT-STRICT", "SIGNCONV", "COMMAOK-SERVE", "READFULL-EOF", "SLICE-CAP"},
 		Decides: "Decides the limit-safe half: every in-repo ReadNext compares against its limit before it can return a message, strictly, and in a domain where the decoded length cannot wrap.",
 		NotDecided: "fragmentation invariance and carry-over exactness - the other half of the property (value-level).",
 		Assumptions: commonAssumptions,
